@@ -445,6 +445,8 @@ def ordered_map_valid_stream(data_field, map_field, result_field,
         . for each sub chunk
           . map indices for sub chunk
     """
+    # the compiled kernels take the marker as a scalar: accept a numpy scalar or 0-d array as well
+    invalid = int(invalid)
     result_data = np.zeros(chunksize, dtype=result_field.data.dtype)
 
     empty_value = None
@@ -514,6 +516,8 @@ def calculate_chunk_decomposition(s_start, s_end, indices, value_chunk_size, sub
 
 def ordered_map_valid_indexed_stream(data_field, map_field, result_field,
                                      invalid=-1, chunksize=DEFAULT_CHUNKSIZE, value_factor=None):
+    # the compiled kernels take the marker as a scalar: accept a numpy scalar or 0-d array as well
+    invalid = int(invalid)
     if value_factor is None:
         # size the value buffer (chunksize * value_factor bytes) for the longest entry of the source,
         # and at least as large as it used to be by default
